@@ -103,6 +103,13 @@ func main() {
 	out = bufio.NewWriterSize(f, 1<<20)
 	defer out.Flush()
 	if *outFile != "" {
+		// the repository's port processors print to os.Stdout: where a stream does not capture that output itself it
+		// must not end up (as raw bytes) in the harness's own stdout
+		if devnull, err := os.OpenFile(os.DevNull, os.O_WRONLY, 0); err == nil {
+			os.Stdout = devnull
+		}
+	}
+	if *outFile != "" {
 		pendingF, _ = os.Create(*outFile + ".pending")
 		defer func() {
 			if pendingF != nil {
